@@ -55,6 +55,7 @@ class UserModel:
         return k, e
 
     def f(self, x):
+        x = np.ascontiguousarray(x, dtype=float)  # values must not depend on the memory layout of the argument (the library may pass a broadcast view)
         extra = 0.0
         if self.expo is not None:
             k, e = self._expo(x)
@@ -71,6 +72,7 @@ class UserModel:
         return float(v)
 
     def g(self, x):
+        x = np.ascontiguousarray(x, dtype=float)  # values must not depend on the memory layout of the argument (the library may pass a broadcast view)
         v = self._g0(x)
         if self.expo is not None:
             k, e = self._expo(x)
@@ -91,12 +93,16 @@ class UserModel:
         return v
 
     def c(self, x):
+        x = np.ascontiguousarray(x, dtype=float)  # values must not depend on the memory layout of the argument (the library may pass a broadcast view)
         return self.A @ x + 0.5 * self.B @ (x * x) - self.b
 
     def J(self, x):
+        x = np.ascontiguousarray(x, dtype=float)  # values must not depend on the memory layout of the argument (the library may pass a broadcast view)
         return self.A + self.B * x[None, :]
 
     def H(self, x, y):
+        x = np.ascontiguousarray(x, dtype=float)  # values must not depend on the memory layout of the argument (the library may pass a broadcast view)
+        y = np.ascontiguousarray(y, dtype=float)
         H = self._H0(x, y)
         if self.expo is not None:
             k, e = self._expo(x)
